@@ -340,6 +340,23 @@ def _trunc1(v):
     return Sym(z3.If(e >= 0, z3.ToReal(z3.ToInt(e)), -z3.ToReal(z3.ToInt(-e))))
 
 
+def _round1(v, decimals=0):
+    """numpy's round (half to even) of a symbolic real to `decimals` places, as a real-sorted term"""
+    import z3
+    if isinstance(v, Special):
+        return v
+    if not isinstance(v, Sym):
+        return round(v, decimals)
+    from fractions import Fraction
+    from .sym import rv
+    scale = rv(Fraction(10) ** int(decimals))
+    y = v.e * scale
+    n = z3.ToInt(y)                      # floor
+    fr = y - z3.ToReal(n)
+    up = z3.Or(fr > rv(Fraction(1, 2)), z3.And(fr == rv(Fraction(1, 2)), n % 2 == 1))
+    return Sym(z3.If(up, z3.ToReal(n) + 1, z3.ToReal(n)) / scale)
+
+
 def _sqrt1(v):
     if isinstance(v, Special):
         return v if v.kind != "-inf" else Special("nan")
@@ -596,6 +613,13 @@ class NpProxy:
         if contains_sym(x):
             return _elementwise(abs, x)
         return np.abs(x)
+
+    def round(self, x, decimals=0, **kw):
+        if contains_sym(x):
+            return _elementwise(lambda v: _round1(v, decimals), x)
+        return np.round(x, decimals, **kw)
+
+    around = round
 
     absolute = abs
 
